@@ -49,6 +49,7 @@ class PathState:
         self.trace: list[str] = []
         self.handling: list[V] = []
         self.tasks: list[dict] = []
+        self.flags: dict = {}
 
     def snapshot(self):
         return {'heap': dict(self.heap), 'ghost': dict(self.ghost), 'ctx': dict(self.ctx), 'env': dict(self.env)}
